@@ -1,5 +1,249 @@
+import Casket.Model.AutoHTTPSAddr
+import Casket.Model.AutoHTTPSRedirect
+import Casket.Spec.AutoHTTPS
 import Driver.Proto
-/- Streams of C15 (stub: not built yet). -/
+/-
+Streams of C15 (formats: see harness/streams/c15.go).  Byte strings travel q-encoded:
+letters, digits and . _ : * / - [ ] literally, every other byte as %XX.
+-/
 namespace Driver.C15
-def streams : List Driver.Stream := []
+open Casket.AutoHTTPS
+
+def safeByte (c : UInt8) : Bool :=
+  isAlpha c || isDigit c || (b!"._:*/-[]").contains c
+
+def q (bs : Bytes) : String :=
+  String.ofList (bs.flatMap fun c =>
+    if safeByte c then [Char.ofNat c.toNat]
+    else ['%', Driver.hexDigit (c.toNat / 16) |>.toUpper, Driver.hexDigit (c.toNat % 16) |>.toUpper])
+
+def unqGo : List UInt8 → List UInt8 → Option Bytes
+  | [], acc => some acc.reverse
+  | 37 :: a :: b :: t, acc =>
+    if isHexDigit a && isHexDigit b then unqGo t (UInt8.ofNat (Casket.AutoHTTPS.hexVal a * 16 + Casket.AutoHTTPS.hexVal b) :: acc) else none
+  | 37 :: _, _ => none
+  | c :: t, acc => unqGo t (c :: acc)
+
+def unq (s : String) : Option Bytes := unqGo s.toUTF8.toList []
+
+def bit (b : Bool) : String := if b then "1" else "0"
+
+/-! ### c15.host -/
+
+def hostModel : List String → String
+  | [h] => match unq h with
+    | none => "bad-case"
+    | some h =>
+      let ip := match parseIP h with | some ip => q (ipString ip) | none => "-"
+      s!"L={bit (isLoopback h)} I={bit (isInternal h)} Q={bit (subjectQualifiesForPublicCert h)} ip={ip}"
+  | _ => "bad-case"
+
+/-! ### c15.qualify -/
+
+def parseQualify : List String → Option Site
+  | [s, h, p, l, bits, e] => do
+    let bs := bits.toList
+    if bs.length != 4 then none
+    pure { scheme := ← unq s, host := ← unq h, port := ← unq p, listen := ← unq l,
+           manual := bs[0]! == '1', selfSigned := bs[1]! == '1', onDemand := bs[2]! == '1' && bs[3]! == '1',
+           hasManager := bs[3]! == '1', email := ← unq e }
+  | _ => none
+
+def qualifyModel (f : List String) : String :=
+  match parseQualify f with
+  | none => "bad-case"
+  | some c => bit (qualifies c)
+
+def qualifyJudge (f : List String) (out : String) : String :=
+  match parseQualify f with
+  | none => "bad:unparsable:case"
+  | some c =>
+    if out == "1" then Casket.AutoHTTPSSpec.qualifyVerdict c true
+    else if out == "0" then Casket.AutoHTTPSSpec.qualifyVerdict c false
+    else "bad:unparsable:" ++ out
+
+/-! ### c15.addr -/
+
+def errName : AddrErr → String
+  | .url => "error:url"
+  | .convention => "error:convention"
+  | .dupKey => "error:dupkey"
+  | .dupAddr => "error:dupaddr"
+  | .outOfModel => "out-of-model"
+
+def addrModel : List String → String
+  | [a] => match unq a with
+    | none => "bad-case"
+    | some a =>
+      match standardizeAddress a with
+      | .error e => errName e
+      | .ok a =>
+        let a := a.normalize
+        "|".intercalate [q a.scheme, q a.host, q a.port, q a.path, q a.key, q a.vhost]
+  | _ => "bad-case"
+
+/-! ### c15.sites -/
+
+def parseVariant (s : String) : Option TLSVariant :=
+  match s.splitOn "+" with
+  | [] => none
+  | b :: opts => do
+    let base ← match b with
+      | "none" => some TLSBase.none
+      | "off" => some .off
+      | "email" => some .email
+      | "self" => some .selfSigned
+      | "manual" => some .manual
+      | "block" => some .block
+      | _ => none
+    if opts.any (fun o => o != "nr" && o != "od") then none
+    pure { base := base, noRedirect := opts.contains "nr", onDemand := opts.contains "od" }
+
+/-- one declared site: address text, bind, tls variant -/
+structure Decl where
+  addr : Bytes
+  bind : Bytes
+  tls : TLSVariant
+
+def parseBlock (s : String) : Option (List Decl) :=
+  match s.splitOn "|" with
+  | [keys, bind, tls] => do
+    let bind ← unq bind
+    let v ← parseVariant tls
+    let ks ← (keys.splitOn ",").mapM unq
+    pure (ks.map fun k => { addr := k, bind := bind, tls := v })
+  | _ => none
+
+def parseBlocks (s : String) : Option (List Decl) := do
+  let bs ← (s.splitOn ";").mapM parseBlock
+  pure bs.flatten
+
+def siteFlags (c : Site) : String :=
+  bit c.enabled ++ bit c.manual ++ bit c.selfSigned ++ bit c.noRedirect ++ bit c.onDemand
+
+open Casket.AutoHTTPSSpec (probeHost probeURI probeTarget)
+
+def showSite (d : Option (Site × Bool × Site)) (f : Site) : String :=
+  let fin := s!"f={q f.scheme}|{q f.host}|{q f.port}|{bit f.enabled}"
+  match d, f.redir with
+  | some (d, m, e), _ => s!"d={q d.scheme}|{q d.host}|{q d.port}|{q d.listen}|{q d.email}|{siteFlags d}|m={bit m}|e={q e.port}|{bit e.enabled}|{fin}|r=-"
+  | none, some rp => s!"d=-|m=-|{fin}|r={q (redirLocation rp probeHost probeURI)}"
+  | none, none => s!"d=-|m=-|{fin}|r=middleware-count-0"
+
+def sitesModel : List String → String
+  | [blocks] => match parseBlocks blocks with
+    | none => "bad-case"
+    | some ds =>
+      match inspect (ds.map (·.addr)) with
+      | .error e => errName e
+      | .ok addrs =>
+        let decl := (addrs.zip ds).map fun (a, d) => siteOf a d.bind d.tls
+        if decl.any directiveError then "error:directive" else
+        let marked := markQualified decl
+        let en := enableAutoHTTPS marked
+        let fin := pipeline decl
+        let n := decl.length
+        let lines := (List.range fin.length).map fun i =>
+          let f := fin[i]!
+          if i < n then showSite (some (decl[i]!, marked[i]!.managed, en[i]!)) f else showSite none f
+        ";".intercalate lines
+  | _ => "bad-case"
+
+open Casket.AutoHTTPSSpec in
+/-- the declared site as the spec reads it from the input text -/
+def specDeclared (d : Decl) : Site :=
+  let (s, h, p) := readAddr d.addr
+  -- the host as Address.Normalize writes an IP literal
+  let h := match parseIP h with | some ip => ipString ip | none => h
+  applyTLS d.tls { scheme := s, host := h, port := p, listen := d.bind }
+
+def parseBit (s : String) : Option Bool := if s == "1" then some true else if s == "0" then some false else none
+
+/-- one site record of the implementation's answer -/
+structure Rec where
+  isDeclared : Bool
+  managed : Option Bool
+  ePort : Bytes := []
+  fScheme : Bytes
+  fHost : Bytes
+  fPort : Bytes
+  fEnabled : Bool
+  loc : String
+
+def dropPrefix (s : String) (n : Nat) : String := String.ofList (s.toList.drop n)
+
+def parseFinal (isDecl : Bool) (m f0 fh fp fe r : String) : Option Rec := do
+  pure { isDeclared := isDecl, managed := parseBit (dropPrefix m 2), fScheme := ← unq (dropPrefix f0 2), fHost := ← unq fh,
+         fPort := ← unq fp, fEnabled := ← parseBit fe, loc := dropPrefix r 2 }
+
+def parseRec (s : String) : Option Rec :=
+  match s.splitOn "|" with
+  | [_, _, _, _, _, _, m, e0, _, f0, fh, fp, fe, r] => do
+    let r ← parseFinal true m f0 fh fp fe r
+    pure { r with ePort := ← unq (dropPrefix e0 2) }
+  | [_, m, f0, fh, fp, fe, r] => parseFinal false m f0 fh fp fe r
+  | _ => none
+
+open Casket.AutoHTTPSSpec in
+def sitesJudge (f : List String) (out : String) : String :=
+  match f with
+  | [blocks] =>
+    match parseBlocks blocks with
+    | none => "bad:unparsable:case"
+    | some ds =>
+      if out.startsWith "error:" || out == "out-of-model" then "ok"
+      else
+        match (out.splitOn ";").mapM parseRec with
+        | none => "bad:unparsable:" ++ out
+        | some ps =>
+          let declared := ps.filter (·.isDeclared)
+          let synth := ps.filter (!·.isDeclared)
+          if declared.length != ds.length then "bad:unparsable:number of declared sites"
+          else
+            let os : Option (List Observed) := (declared.zip ds).mapM fun (p, d) => do
+              let m ← p.managed
+              pure { declared := specDeclared d, managed := m, ePort := p.ePort, fScheme := p.fScheme, fHost := p.fHost, fPort := p.fPort, fEnabled := p.fEnabled }
+            match os with
+            | none => "bad:unparsable:managed flag"
+            | some os =>
+              let rs : List ObservedRedirect := synth.map fun p =>
+                { fHost := p.fHost, fPort := p.fPort, fEnabled := p.fEnabled, target := (unq p.loc).bind probeTarget }
+              sitesVerdict os rs
+  | _ => "bad:unparsable:case"
+
+/-! ### c15.redirect -/
+
+def redirectModel : List String → String
+  | [p, h, t] => match unq p, unq h, unq t with
+    | some p, some h, some t =>
+      match requestURI t with
+      | .unreadable => "unreadable-request"
+      | .outOfModel => "out-of-model"
+      | .ok uri =>
+        -- the first field is the port of the HTTPS site; redirPlaintextHost derives the handler's redirPort from it
+        s!"{redirStatus} {q (redirLocation (capturedPort p) h uri)}"
+    | _, _, _ => "bad-case"
+  | _ => "bad-case"
+
+def redirectJudge (f : List String) (out : String) : String :=
+  match f with
+  | [p, h, t] => match unq p, unq h, unq t with
+    | some p, some h, some t =>
+      if out == "unreadable-request" || out == "out-of-model" then "ok"
+      else match out.splitOn " " with
+        | [st, loc] => match st.toNat?, unq loc with
+          | some st, some loc => Casket.AutoHTTPSSpec.redirectVerdict p h t st loc
+          | _, _ => "bad:unparsable:" ++ out
+        | _ => "bad:unparsable:" ++ out
+    | _, _, _ => "bad:unparsable:case"
+  | _ => "bad:unparsable:case"
+
+def streams : List Driver.Stream := [
+  { name := "c15.host", model := hostModel, judge := fun _ _ => "ok" },
+  { name := "c15.qualify", model := qualifyModel, judge := qualifyJudge },
+  { name := "c15.addr", model := addrModel, judge := fun _ _ => "ok" },
+  { name := "c15.sites", model := sitesModel, judge := sitesJudge },
+  { name := "c15.redirect", model := redirectModel, judge := redirectJudge }
+]
+
 end Driver.C15
